@@ -477,9 +477,10 @@ Print Assumptions C01_comp_cols_example.
 
 (* ================================================================================================ *)
 (* Round "Lagrange in the model" (Model/StarkLagrange.v, Proofs/StarkLagrangeRows.v, Proofs/StarkLagrange.v).            *)
-(* The existing capstone C01_stark_complete is untouched; the Lagrange capstone is `_partial`: the stages Merkle / FRI /  *)
-(* ce-interpolation / point interpolation are premises (the SAME statements C01_stark_complete discharges from C10, C15,  *)
-(* C09, plus C20's interpolate through distinct points); outside the library: the GKR step hands the same rr to both sides *)
+(* The existing capstone C01_stark_complete is untouched.  C01_stark_complete_lagrange_partial keeps the stages Merkle / FRI /  *)
+(* ce-interpolation / point interpolation as premises; C01_stark_complete_lagrange (further below) has them instantiated as   *)
+(* C01_stark_complete does (C10, C15, C09, C04) plus C20's interpolate.  Outside the library: the GKR step hands the same rr   *)
+(* to both sides.                                                                                                            *)
 From VModel Require StarkLagrange EnforceLagrange Composition.
 From VProofs Require StarkLagrangeRows StarkLagrange StarkLagrangeExample CompositionLagrangePoly.
 Local Open Scope nat_scope.
@@ -586,6 +587,71 @@ Section C01LagrangeCapstone.
 End C01LagrangeCapstone.
 Print Assumptions C01_stark_complete_lagrange_partial.
 
+(* (3') the capstone with a Lagrange-kernel column, ALL stages instantiated (Proofs/StarkLagrangeInst.v): Merkle = Model/Merkle.v
+   (C10), ce-interpolation = fft::interpolate_poly_with_offset (C09), FRI = Model/Fri.v (C15), coin = a function of the symbolic
+   challenge list (C04), point interpolation = polynom::interpolate(.., true) of Model/Polynom.v (C20, remove_leading_zeros
+   included).  NO stage premise.  Premises: those of C01_stark_complete (hashing, field facts, FRI schedule, shape, draw_total, z and
+   query points) with "valid trace" = valid ordinary part (quotient Qc) + HONEST kernel column + the shape of
+   LagrangeKernelTransitionConstraints::new, trace length n = 2^v with 2 <= v < 64, and the query points are none of the v + 1
+   opening points of the kernel column.  Assumption outside the library: the GKR step hands the same lc_rr to both sides. *)
+From VModel Require FFT Merkle Transcript Fri.
+From VProofs Require FFTSpec FFTOffset StarkInst StarkFri StarkLagrangeInst.
+Theorem C01_stark_complete_lagrange : forall (F : Type) (O : FOps F), FLaws O ->
+  forall (D : Type) (D_eqb : D -> D -> bool), (forall a b, D_eqb a b = true <-> a = b) ->
+  forall (d0 : D) (merge : D -> D -> D) (hash_elements : list F -> D)
+    (rou : nat -> F) (K : nat), 1 <= K -> (forall k, k < K -> fmul O (rou (S k)) (rou (S k)) = rou k) -> rou 1 = fneg O (fone O) ->
+  fadd O (fone O) (fone O) <> fzero O -> forall gen_offset : F, gen_offset <> fzero O ->
+  forall (CS : Type) (cs_reseed : CS -> D -> CS) (cs_draw : CS -> CS * Fri.draw_res F),
+  (forall c, exists c' a, cs_draw c = (c', Fri.DrawOk a)) ->
+  forall (coin0 : CS) (sem : list (Transcript.chal * Transcript.cval) -> @Coin F) (f b remmax a k : nat),
+  1 <= f -> Fri.supported_folding (2 ^ f) = true ->
+  Fri.num_fri_layers (Fri.mkOpts (2 ^ b) (2 ^ f) remmax) (2 ^ a) = Some k -> k * f < a -> b <= a - k * f -> a <= K -> a <= 62 ->
+  forall (two_adicity : nat) (itw : list F) (kc : nat),
+  S kc <= two_adicity -> FFTSpec.root_cond O (S kc) (rou (S kc)) ->
+  FFT.get_inv_twiddles O two_adicity rou (2 ^ S kc) = Some itw ->
+  fmul O (FFTSpec.two_pow_f O (S kc)) (FFTOffset.n_inv O (S kc)) = fone O ->
+  forall (dbg_fri dbg_interp : bool) (air_eval : F -> list F -> list F -> F) (cols ce_b : nat) (g : F)
+    (dbg : bool) (s : Transcript.shape) (lc : @StarkLagrange.LagC F) (lcc : F) (Ts : list (list F)) (Lp Qc : list F),
+  let v := a - b in
+  let n := 2 ^ v in
+  let lde := StarkFri.lde_of O rou gen_offset a in
+  let cP := StarkInst.coin_prover sem s in
+  let cV := StarkInst.coin_verifier sem s in
+  StarkPoly.primitive_root O g n -> fpow O gen_offset (2 ^ S kc) <> fone O ->
+  2 <= v -> v < 64 -> 1 <= cols -> 2 ^ S kc = n * ce_b -> cols <= ce_b ->
+  Ts <> [] -> Forall (fun p => length p = n) Ts -> length Lp = n ->
+  length Qc <= n * cols ->
+  (forall x, ~ In x (domain O g n) -> air_eval x (evals O Ts x) (evals O Ts (fmul O x g)) = peval O Qc x) ->
+  length (EnforceLagrange.l_coef (StarkLagrange.lc_t lc)) = v -> length (StarkLagrange.lc_rr lc) = v ->
+  length (EnforceLagrange.l_div (StarkLagrange.lc_t lc)) = v ->
+  (forall idx, idx < v -> nth idx (EnforceLagrange.l_div (StarkLagrange.lc_t lc)) (Enforce.mkD [] [])
+                          = Enforce.mkD [((2 ^ Z.of_nat idx)%Z, fone O)] []) ->
+  (forall i, i < n -> peval O Lp (fpow O g i) = nth i (StarkLagrange.kernel_col O (StarkLagrange.lc_rr lc) v) (fzero O)) ->
+  ~ In (c_z cP) (domain O g n) -> c_z cP <> fzero O -> fmul O (c_z cP) g <> fzero O ->
+  incl (c_xs cP) lde -> NoDup (c_xs cP) -> c_xs cP <> [] -> length (c_xs cP) <= 255 ->
+  (forall x, In x (c_xs cP) -> ~ In x (StarkLagrange.lag_pts O g (c_z cP) v)) ->
+  exists pf,
+    StarkLagrange.prove_lag O (StarkLagrange.interp_pts_c20 O dbg_interp) D (StarkInst.Opening D) (StarkFri.FriProof D (list (list D)))
+      (StarkInst.commit O D d0 merge hash_elements lde) (StarkInst.open_prove O D d0 merge hash_elements lde)
+      (StarkFri.fri_prove O rou K gen_offset D hash_elements (Merkle.mtree D) (list (list D)) (StarkFri.mt_new' D d0 merge) (StarkFri.mt_root' D d0)
+                 (StarkFri.mt_prove_batch' D d0) CS cs_reseed cs_draw f b remmax a coin0)
+      air_eval (StarkInst.interp_ce O two_adicity itw kc (rou (S kc)) gen_offset) (mkParams n g cols false dbg) v lc cP lcc Ts Lp = Done pf /\
+    StarkLagrange.verify_lag O (StarkLagrange.interp_pts_c20 O dbg_interp) D (StarkInst.Opening D) (StarkFri.FriProof D (list (list D)))
+      (StarkInst.open_ok O D D_eqb merge hash_elements lde)
+      (StarkFri.fri_verify O rou K gen_offset dbg_fri D D_eqb hash_elements (list (list D)) (StarkFri.mt_verify_batch' D D_eqb merge)
+                  CS cs_reseed cs_draw f b remmax a coin0)
+      air_eval (mkParams n g cols false dbg) v lc cV lcc pf = StarkLagrange.VAccept.
+Proof. exact @StarkLagrangeInst.stark_complete_lagrange. Qed.
+Print Assumptions C01_stark_complete_lagrange.
+
+(* the model's point interpolation IS C20's polynom::interpolate(xs, ys, true) and meets the stage premise interp_pts_spec *)
+Theorem C01_interp_pts_inst : forall (F : Type) (O : FOps F), FLaws O -> forall (dbg : bool) (xs ys : list F),
+  NoDup xs -> length ys = length xs ->
+  length (StarkLagrange.interp_pts_c20 O dbg xs ys) <= length xs /\
+  forall m, m < length xs -> peval O (StarkLagrange.interp_pts_c20 O dbg xs ys) (nth m xs (fzero O)) = nth m ys (fzero O).
+Proof. exact @StarkLagrangeInst.interp_pts_c20_spec. Qed.
+Print Assumptions C01_interp_pts_inst.
+
 (* (5) non-vacuity: Z/17, n = 8, g = 2, r = (2, 3, 5) *)
 Example C01_lagrange_honest_nonvacuous :
   (forall idx j, idx < 3 -> j < 2 ^ idx ->
@@ -595,3 +661,29 @@ Example C01_lagrange_honest_nonvacuous :
     = EnforceLagrange.lag_assertion_value StarkExamples.O17 StarkLagrangeExample.rr17.
 Proof. split; [exact (proj1 StarkLagrangeExample.lagrange_honest_nonvacuous) | exact (proj1 (proj2 StarkLagrangeExample.lagrange_honest_nonvacuous))]. Qed.
 Print Assumptions C01_lagrange_honest_nonvacuous.
+
+(* the NON-STAGE hypotheses of C01_stark_complete_lagrange(_partial) are jointly satisfiable (Z/17, n = 8, g = 2, constant column T5
+   under air5, honest kernel column for r = (2,3,5), z = 6, queries 3, 5), and on that instance the Lagrange part of the composition
+   polynomial exists; the stage hypotheses are instantiated in general by C01_stark_complete_lagrange *)
+Example C01_stark_complete_lagrange_hyps_nonvacuous :
+  8 = 2 ^ 3 /\ 2 <= 3 /\ 3 < 64 /\ StarkPoly.primitive_root StarkExamples.O17 StarkExamples.g17 8 /\ 8 * 1 <= 16 /\
+  [StarkExamples.T5] <> [] /\ Forall (fun p : list (ZpLaws.Zp 17%Z) => length p = 8) [StarkExamples.T5] /\ length StarkLagrangeExample.Lp17 = 8 /\
+  (forall x, ~ In x (domain StarkExamples.O17 StarkExamples.g17 8) ->
+     StarkExamples.air5 x (evals StarkExamples.O17 [StarkExamples.T5] x) (evals StarkExamples.O17 [StarkExamples.T5] (fmul StarkExamples.O17 x StarkExamples.g17))
+     = peval StarkExamples.O17 [] x) /\
+  length (EnforceLagrange.l_coef (StarkLagrange.lc_t StarkLagrangeExample.lc17)) = 3 /\ length (StarkLagrange.lc_rr StarkLagrangeExample.lc17) = 3 /\
+  length (EnforceLagrange.l_div (StarkLagrange.lc_t StarkLagrangeExample.lc17)) = 3 /\
+  (forall idx, idx < 3 -> nth idx (EnforceLagrange.l_div (StarkLagrange.lc_t StarkLagrangeExample.lc17)) (Enforce.mkD [] [])
+                          = Enforce.mkD [((2 ^ Z.of_nat idx)%Z, fone StarkExamples.O17)] []) /\
+  (forall i, i < 8 -> peval StarkExamples.O17 StarkLagrangeExample.Lp17 (fpow StarkExamples.O17 StarkExamples.g17 i)
+                      = nth i (StarkLagrange.kernel_col StarkExamples.O17 (StarkLagrange.lc_rr StarkLagrangeExample.lc17) 3) (fzero StarkExamples.O17)) /\
+  ~ In (c_z StarkExamples.coin5) (domain StarkExamples.O17 StarkExamples.g17 8) /\ c_z StarkExamples.coin5 <> fzero StarkExamples.O17 /\
+  fmul StarkExamples.O17 (c_z StarkExamples.coin5) StarkExamples.g17 <> fzero StarkExamples.O17 /\
+  NoDup (c_xs StarkExamples.coin5) /\ c_xs StarkExamples.coin5 <> [] /\ length (c_xs StarkExamples.coin5) <= 255 /\
+  (forall x, In x (c_xs StarkExamples.coin5) -> ~ In x (StarkLagrange.lag_pts StarkExamples.O17 StarkExamples.g17 (c_z StarkExamples.coin5) 3)) /\
+  exists Ql, length Ql <= 8 /\
+    forall x, ~ In x (domain StarkExamples.O17 StarkExamples.g17 8) ->
+      StarkLagrange.lag_tot StarkExamples.O17 StarkLagrangeExample.lc17 (StarkLagrange.lag_frame StarkExamples.O17 StarkExamples.g17 3 StarkLagrangeExample.Lp17 x) x
+      = peval StarkExamples.O17 Ql x.
+Proof. exact StarkLagrangeExample.lagrange_capstone_hyps_nonvacuous. Qed.
+Print Assumptions C01_stark_complete_lagrange_hyps_nonvacuous.
